@@ -2861,8 +2861,83 @@ func main() {
 		w("  %s%s -- %d\n", leanStr(n), sep, i+1)
 	}
 	w("]\n\n")
+	// ---- round 8b: inventory of every struct field of the analysed packages whose type comes from package sync
+	// (Mutex, RWMutex, WaitGroup, Once, Cond, Map, Pool, ... also behind a pointer, also embedded). A field that is
+	// not the designated mutex of some guard must be in the reviewed list of Model/C18.lean: a NEW mutex fails closed.
+	w("/-- every struct field (analysed packages, non-test files) whose type is a type of package `sync`: owner `pkg|Type`, field (embedded: the type name),\nkind, is it the designated mutex of some guard of the discipline? -/\n")
+	w("def syncFields : List (String × String × String × Bool) := [\n")
+	var invLines []string
+	for _, d := range pkgDirs {
+		p := pkgs[d]
+		syncAlias := map[*ast.File]string{}
+		for _, f := range p.files {
+			for _, im := range f.Imports {
+				if strings.Trim(im.Path.Value, "\"") == "sync" {
+					a := "sync"
+					if im.Name != nil {
+						a = im.Name.Name
+					}
+					syncAlias[f] = a
+				}
+			}
+		}
+		var tnames []string
+		for n := range p.types {
+			tnames = append(tnames, n)
+		}
+		sort.Strings(tnames)
+		for _, tn := range tnames {
+			ts := p.types[tn]
+			st, ok := ts.Type.(*ast.StructType)
+			if !ok {
+				continue
+			}
+			var owner *ast.File
+			for _, f := range p.files {
+				if f.Pos() <= ts.Pos() && ts.Pos() < f.End() {
+					owner = f
+				}
+			}
+			alias, has := syncAlias[owner]
+			if !has {
+				continue
+			}
+			for _, fld := range st.Fields.List {
+				te := fld.Type
+				if se, ok := te.(*ast.StarExpr); ok {
+					te = se.X
+				}
+				sel, ok := te.(*ast.SelectorExpr)
+				if !ok {
+					continue
+				}
+				if id, ok := sel.X.(*ast.Ident); !ok || id.Name != alias {
+					continue
+				}
+				names := []string{sel.Sel.Name}
+				if len(fld.Names) > 0 {
+					names = nil
+					for _, n := range fld.Names {
+						names = append(names, n.Name)
+					}
+				}
+				for _, fname := range names {
+					des := false
+					for _, g := range guards {
+						if g.pkg == d && g.typ == tn && g.kind == kLocked && g.mutex == fname {
+							des = true
+						}
+					}
+					invLines = append(invLines, fmt.Sprintf("(%s, %s, %s, %v)", leanStr(d+"|"+tn), leanStr(fname), leanStr(sel.Sel.Name), des))
+				}
+			}
+		}
+	}
+	w("  %s\n]\n\n", strings.Join(invLines, ",\n  "))
+
 	// ---- source text of the functions the synchronisation models (Model/C18SyncProgs.lean) transcribe:
 	// one entry per source line as gofmt prints it, logging / tracing and string texts dropped (harness/skel)
+	w("%s", chanOpsLean()) // round 8b: chanops.go
 	w("namespace Src\n\n")
 	const prog = "extract_c18"
 	emitSrc := func(prefix, rel string, fns [][2]string) {
@@ -2877,7 +2952,13 @@ func main() {
 			b.WriteString(skel.LeanList(name, rel+": "+fn[0]+" "+fn[1], skel.Lines(fd)))
 		}
 	}
-	emitSrc("stateless", "pintracker/stateless/stateless.go", [][2]string{{"", "New"}, {"*Tracker", "opWorker"}, {"*Tracker", "enqueue"}, {"*Tracker", "SetClient"}, {"*Tracker", "Shutdown"}})
+	emitSrc("stateless", "pintracker/stateless/stateless.go", [][2]string{{"", "New"}, {"*Tracker", "opWorker"}, {"*Tracker", "enqueue"}, {"*Tracker", "SetClient"}, {"*Tracker", "Shutdown"},
+		// round 8b (Model/C18SyncProgs2.lean, progT…): the users of spt.rpcClient and of the queues
+		{"*Tracker", "pin"}, {"*Tracker", "unpin"}, {"*Tracker", "Recover"}, {"*Tracker", "recoverWithPinInfo"}})
+	// round 8b: informer protocol (progI…), metrics checker (progW…)
+	emitSrc("disk", "informer/disk/disk.go", [][2]string{{"*Informer", "SetClient"}, {"*Informer", "Shutdown"}, {"*Informer", "GetMetric"}})
+	emitSrc("numpin", "informer/numpin/numpin.go", [][2]string{{"*Informer", "SetClient"}, {"*Informer", "Shutdown"}, {"*Informer", "GetMetric"}})
+	emitSrc("metrics", "monitor/metrics/checker.go", [][2]string{{"", "NewChecker"}, {"*Checker", "alert"}, {"*Checker", "Alerts"}, {"*Checker", "Watch"}})
 	emitSrc("crdt", "consensus/crdt/consensus.go", [][2]string{{"", "New"}, {"*Consensus", "setup"}, {"*Consensus", "Shutdown"}, {"*Consensus", "SetClient"}, {"*Consensus", "Ready"}, {"*Consensus", "LogPin"}, {"*Consensus", "LogUnpin"}, {"*Consensus", "batchWorker"}})
 	emitSrc("cluster", "cluster.go", [][2]string{{"", "NewCluster"}, {"*Cluster", "run"}, {"*Cluster", "ready"}, {"*Cluster", "Ready"}, {"*Cluster", "Shutdown"}, {"*Cluster", "Done"}, {"*Cluster", "watchPeers"}})
 	w("end Src\n\nend CV.C18.Gen\n")
